@@ -6,7 +6,7 @@
     dropping the session leaves the dump unchanged and commit makes it the dump of (old state + the
     transaction's writes).  [c02_k c] = "finding class c explains a failure" (Mvcc/Run.v). *)
 From GV Require Export Mvcc.Model Mvcc.Canon Mvcc.Spec Mvcc.Run.
-From GV Require Export Mvcc.ProofsVis Mvcc.ProofsInv Mvcc.ProofsThm Mvcc.ProofsSpec Mvcc.ProofsRefuted Mvcc.ProofsAtomic.
+From GV Require Export Mvcc.ProofsVis Mvcc.ProofsInv Mvcc.ProofsThm Mvcc.ProofsSpec Mvcc.ProofsExpand Mvcc.ProofsRefuted Mvcc.ProofsAtomic.
 From Coq Require Export ZArith List Bool.
 Export ListNotations.
 Open Scope Z_scope.
@@ -70,6 +70,14 @@ Theorem end_closes_session : forall st s,
   sess (fst (step st (Commit s))) s = None /\ sess (fst (step st (Rollback s))) s = None.
 Proof. exact end_closes_session_l. Qed.
 Print Assumptions end_closes_session.
+
+(** along every history the outcome of every Begin / Commit / Rollback / drop is the one the specification's
+    state machine prescribes: Begin succeeds iff the session has no open transaction, Commit and Rollback
+    succeed iff it has one ([ctl_fails] lists the positions where the recorded outputs say otherwise; the check
+    evaluates it on the implementation's outputs) *)
+Theorem tx_control_follows_spec : forall ops, ctl_fails ops (mrun ops) = [].
+Proof. exact tx_control_follows_spec_l. Qed.
+Print Assumptions tx_control_follows_spec.
 
 Theorem commit_never_fails : forall ops s t, sess (final ops) s = Some t ->
   snd (step (final ops) (Commit s)) = OUnit
